@@ -15,8 +15,8 @@ import (
 )
 
 type retInfo struct {
-	st   *state
-	vals []T
+	st    *state
+	vals  []T
 	block *ssa.BasicBlock
 }
 
@@ -37,42 +37,42 @@ type closureVal struct {
 }
 
 type frame struct {
-	vc          *VC
-	fn          *ssa.Function
-	fc          *FuncContract
-	pfx         string
-	name        string
-	vals        map[ssa.Value]T
-	addrs       map[ssa.Value]*addr
-	tuples      map[ssa.Value][]T
-	clos        map[ssa.Value]*closureVal
-	inline      bool
-	depth       int
-	entry       *state
-	next0       string
-	modRefs     []string
-	modAll      bool
-	loops       []*Loop
-	loopAt      map[*ssa.BasicBlock]*Loop
-	out         map[*ssa.BasicBlock]*state
-	conds       map[*ssa.BasicBlock]string
-	rets        []retInfo
+	vc            *VC
+	fn            *ssa.Function
+	fc            *FuncContract
+	pfx           string
+	name          string
+	vals          map[ssa.Value]T
+	addrs         map[ssa.Value]*addr
+	tuples        map[ssa.Value][]T
+	clos          map[ssa.Value]*closureVal
+	inline        bool
+	depth         int
+	entry         *state
+	next0         string
+	modRefs       []string
+	modAll        bool
+	loops         []*Loop
+	loopAt        map[*ssa.BasicBlock]*Loop
+	out           map[*ssa.BasicBlock]*state
+	conds         map[*ssa.BasicBlock]string
+	rets          []retInfo
 	loopHeadState map[*Loop]*state
-	callLog     map[string][]T // straight-line functions: first non-receiver argument of every static call, by callee name
-	debug       []dbgRef
-	caller      *frame
-	inputs      []string // names of input constants (for models)
-	params      map[string]T
-	paramA      map[string]*addr
-	defers      []*ssa.Defer
-	loopMeasure map[*Loop]string
-	callbacks   map[string]*CallbackSpec
-	ghostVisits bool
-	skipWrap    bool
-	curBlock    *ssa.BasicBlock
-	fi          *freshInfo
-	loopMods    map[*Loop]*loopMod
-	iterMap     map[ssa.Value]*iterState
+	callLog       map[string][]T // straight-line functions: first non-receiver argument of every static call, by callee name
+	debug         []dbgRef
+	caller        *frame
+	inputs        []string // names of input constants (for models)
+	params        map[string]T
+	paramA        map[string]*addr
+	defers        []*ssa.Defer
+	loopMeasure   map[*Loop]string
+	callbacks     map[string]*CallbackSpec
+	ghostVisits   bool
+	skipWrap      bool
+	curBlock      *ssa.BasicBlock
+	fi            *freshInfo
+	loopMods      map[*Loop]*loopMod
+	iterMap       map[ssa.Value]*iterState
 }
 
 func newFrame(vc *VC, fn *ssa.Function, pfx string) *frame {
